@@ -11,11 +11,9 @@
 package ibb // import "mellium.im/xmpp/ibb"
 
 import (
-	"bytes"
 	"context"
 	"encoding/base64"
 	"encoding/xml"
-	"errors"
 	"fmt"
 	"sync"
 
@@ -197,7 +195,9 @@ type errorResponder interface {
 }
 
 func handlePayload(h *Handler, errResp errorResponder, p dataPayload, e xmlstream.Encoder) error {
+	h.mu.Lock()
 	conn, ok := h.streams[p.SID]
+	h.mu.Unlock()
 	if !ok {
 		_, err := xmlstream.Copy(e, errResp.Error(stanza.Error{
 			Type:      stanza.Cancel,
@@ -206,6 +206,8 @@ func handlePayload(h *Handler, errResp errorResponder, p dataPayload, e xmlstrea
 		return err
 	}
 
+	conn.readLock.Lock()
+	defer conn.readLock.Unlock()
 	if p.Seq != conn.seq {
 		_, err := xmlstream.Copy(e, errResp.Error(stanza.Error{
 			Type:      stanza.Cancel,
@@ -213,33 +215,31 @@ func handlePayload(h *Handler, errResp errorResponder, p dataPayload, e xmlstrea
 		}))
 		return err
 	}
-	conn.seq++
 
-	conn.readLock.Lock()
-	defer conn.readLock.Unlock()
-	var inputErr base64.CorruptInputError
-	dataLen := base64.StdEncoding.DecodedLen(len(p.Data))
-	// If this would cause the buffer to grow beyond the maximum size, send back
-	// an error.
-	if conn.maxBufSize > 0 && conn.readBuf.Len()+dataLen > conn.maxBufSize {
-		_, err := xmlstream.Copy(e, errResp.Error(stanza.Error{
-			Type:      stanza.Wait,
-			Condition: stanza.ResourceConstraint,
-		}))
-		return err
-	}
-	b64Reader := base64.NewDecoder(base64.StdEncoding, bytes.NewReader(p.Data))
-	_, err := conn.readBuf.ReadFrom(b64Reader)
-	if errors.As(err, &inputErr) {
+	// Decode the whole packet before touching the stream so that a packet that
+	// is refused leaves neither a partial payload in the buffer nor a hole in
+	// the sequence (the sender may retransmit it).
+	data := make([]byte, base64.StdEncoding.DecodedLen(len(p.Data)))
+	n, err := base64.StdEncoding.Decode(data, p.Data)
+	if err != nil {
 		_, err := xmlstream.Copy(e, errResp.Error(stanza.Error{
 			Type:      stanza.Cancel,
 			Condition: stanza.BadRequest,
 		}))
 		return err
 	}
-	if err != nil {
+	// If this would cause the buffer to grow beyond the maximum size, send back
+	// an error.
+	if conn.maxBufSize > 0 && conn.readBuf.Len()+n > conn.maxBufSize {
+		_, err := xmlstream.Copy(e, errResp.Error(stanza.Error{
+			Type:      stanza.Wait,
+			Condition: stanza.ResourceConstraint,
+		}))
 		return err
 	}
+	conn.seq++
+	/* #nosec */
+	conn.readBuf.Write(data[:n])
 
 	iq, ok := errResp.(stanza.IQ)
 	if e != nil && ok {
